@@ -1462,7 +1462,7 @@ func init() {
 		Name:  "R-SELECTED-REGULAR",
 		Props: []string{"C13"},
 		Min:   2,
-		Doc: "a selected path is listed as a file only when it is a regular file: in pkg/manifest every FileItem literal with IsDir false whose Size is <info>.Size() of an os.Stat result (the selection itself; entries of a walk are filtered by their DirEntry type) " +
+		Doc: "a selected path is listed as a file only when it is a regular file: in pkg/manifest every FileItem literal with IsDir false whose Size is <info>.Size() of a FileInfo obtained in the function itself (the selection; it must come from os.Stat, which follows a selected link, not os.Lstat; entries of a walk are filtered by their DirEntry type) " +
 			"is reached only past the false edge of `!info.IsDir() && !info.Mode().IsRegular()` (or the true edge of Mode().IsRegular()) on that very FileInfo - a device, pipe or socket (also behind a link) has a stat size that is not its readable content",
 		Run: runSelectedRegular,
 	})
@@ -1554,11 +1554,15 @@ func runSelectedRegular(c *Ctx) {
 		}}}}
 		// FileInfo variables that come from os.Stat
 		statVars := map[types.Object]bool{}
+		lstatVars := map[types.Object]bool{}
 		InspectNoLits(f.Body, func(m ast.Node) bool {
 			if as, ok := m.(*ast.AssignStmt); ok && len(as.Rhs) == 1 && len(as.Lhs) == 2 {
-				if call, ok := ast.Unparen(as.Rhs[0]).(*ast.CallExpr); ok && calleeIs(info, call, "os", "Stat") {
+				if call, ok := ast.Unparen(as.Rhs[0]).(*ast.CallExpr); ok && (calleeIs(info, call, "os", "Stat") || calleeIs(info, call, "os", "Lstat")) {
 					if o := ObjOf(info, as.Lhs[0]); o != nil {
 						statVars[o] = true
+						if calleeIs(info, call, "os", "Lstat") {
+							lstatVars[o] = true
+						}
 					}
 				}
 			}
@@ -1602,6 +1606,10 @@ func runSelectedRegular(c *Ctx) {
 				n++
 				k++
 				who := types.ExprString(sel.X)
+				if lstatVars[ObjOf(info, sel.X)] {
+					c.Bad(fmt.Sprintf("selected/%s#%d", f.Name, k), cl.Pos(), f.Name+" classifies the selected path with os.Lstat: a selected symbolic link to a file is then not a regular file (refused, or listed with the length of the link text instead of its content), while the sender reads through the link")
+					return true
+				}
 				c.Check(spec.Passed(f, r, "regular:"+who), fmt.Sprintf("selected/%s#%d", f.Name, k), cl.Pos(), "the selection is listed as a file only past the regular-file test of its FileInfo",
 					f.Name+" lists the selected path as a file with the size of its os.Stat result without testing "+who+".Mode().IsRegular(): `thru host /dev/zero`, a named pipe or a link to one is listed as an empty regular file, which is not its readable content")
 				return true
@@ -1987,13 +1995,32 @@ func runOpenBounded(c *Ctx) {
 		k++
 		good := false
 		if opened != nil {
-			for _, d := range append([]ast.Expr{kv.Value}, resolveExprsAll(send, StripConv(info, kv.Value))...) {
-				if call, ok := StripConv(info, d).(*ast.CallExpr); ok && len(call.Args) == 1 {
+			// through copies: every definition chain of the announced variable must end in len(<opened slice>) (depth 3)
+			var derives func(e ast.Expr, depth int) bool
+			derives = func(e ast.Expr, depth int) bool {
+				e = StripConv(info, e)
+				if call, ok := e.(*ast.CallExpr); ok && len(call.Args) == 1 {
 					if id, ok := ast.Unparen(call.Fun).(*ast.Ident); ok && id.Name == "len" && ObjOf(info, call.Args[0]) == opened {
-						good = true
+						return true
 					}
 				}
+				if depth == 0 {
+					return false
+				}
+				defs := resolveExprsAll(send, e)
+				if len(defs) == 0 {
+					return false
+				}
+				// the last definition before the announcement decides; accept when some definition derives and it is the latest one textually
+				var last ast.Expr
+				for _, d := range defs {
+					if d.Pos() < kv.Pos() && (last == nil || d.Pos() > last.Pos()) {
+						last = d
+					}
+				}
+				return last != nil && derives(last, depth-1)
 			}
+			good = derives(kv.Value, 3)
 		}
 		c.Check(good, fmt.Sprintf("announce-opened/count#%d", k), kv.Pos(), "the announced count is the number of streams that were opened",
 			"the DataStreams record announces "+types.ExprString(kv.Value)+", which does not derive from the number of streams actually opened: when fewer streams could be opened than planned the receiver waits for streams that never come")
